@@ -380,6 +380,8 @@ def exec_spec(spec, root):
         return [observe_define_direct(spec["text"])]
     if t == "getter":
         return [observe_getter(spec)]
+    if t == "gseq":
+        return [observe_getter_seq(spec)]
     rows = []
     for step in steps_of(spec):
         rows.extend(exec_step(t, step, root))
@@ -506,18 +508,10 @@ def observe_define_direct(text):
     return row
 
 
-def observe_getter(spec):
-    from behave.userdata import UserData, UserDataNamespace
-    g, text = spec["g"], spec["text"]
-    stored = text
-    if spec.get("pre"):          # a value that already has the target type
-        stored = {"int": lambda t: int(t), "as": lambda t: int(t), "float": lambda t: float(t),
-                  "bool": lambda t: t == "true"}[g](text)
-    data = UserData({"ns.k": stored} if spec["present"] else {"ns.other": "1"})
-    target, key = (UserDataNamespace("ns", data), "k") if spec.get("ns") else (data, "ns.k")
+def call_getter(target, key, g):
+    """one getter call, recorded: res value/default/valueerror/exc:<type>, type name and value of the result"""
     sentinel = object()
-    row = {"kind": "getter", "g": g, "present": spec["present"], "text": chars(text), "res": "", "ty": "", "neg": False,
-           "mag": 0, "repr": []}
+    out = {"res": "", "ty": "", "neg": False, "mag": 0, "repr": []}
     try:
         if g == "int":
             r = target.getint(key, sentinel)
@@ -528,22 +522,47 @@ def observe_getter(spec):
         else:
             r = target.getas(int, key, sentinel)
     except ValueError:
-        row["res"] = "valueerror"
-        return row
+        out["res"] = "valueerror"
+        return out
     except Exception as e:
-        row["res"] = "exc:" + type(e).__name__
-        return row
+        out["res"] = "exc:" + type(e).__name__
+        return out
     if r is sentinel:
-        row["res"] = "default"
-        return row
-    row["res"], row["ty"] = "value", type(r).__name__
+        out["res"] = "default"
+        return out
+    out["res"], out["ty"] = "value", type(r).__name__
     if isinstance(r, bool):
-        row["mag"] = 1 if r else 0
+        out["mag"] = 1 if r else 0
     elif isinstance(r, int):
-        row["neg"], row["mag"] = r < 0, min(abs(r), 2000000000)
+        out["neg"], out["mag"] = r < 0, min(abs(r), 2000000000)
     elif isinstance(r, float):
-        row["repr"] = chars(repr(r))
+        out["repr"] = chars(repr(r))
+    return out
+
+
+def getter_target(spec, stored):
+    from behave.userdata import UserData, UserDataNamespace
+    data = UserData({"ns.k": stored} if spec["present"] else {"ns.other": "1"})
+    return (UserDataNamespace("ns", data), "k") if spec.get("ns") else (data, "ns.k")
+
+
+def observe_getter(spec):
+    g, text = spec["g"], spec["text"]
+    stored = text
+    if spec.get("pre"):          # a value that already has the target type
+        stored = {"int": lambda t: int(t), "as": lambda t: int(t), "float": lambda t: float(t),
+                  "bool": lambda t: t == "true"}[g](text)
+    target, key = getter_target(spec, stored)
+    row = {"kind": "getter", "g": g, "present": spec["present"], "text": chars(text)}
+    row.update(call_getter(target, key, g))
     return row
+
+
+def observe_getter_seq(spec):
+    """several getter calls, one after the other, on the SAME UserData / UserDataNamespace object"""
+    target, key = getter_target(spec, spec["text"])
+    return {"kind": "gseq", "text": chars(spec["text"]), "present": spec["present"], "calls": list(spec["calls"]),
+            "outs": [call_getter(target, key, g) for g in spec["calls"]]}
 
 
 # ------------------------------------------------------------------ experiments
@@ -845,6 +864,11 @@ class Plan(object):
         for g in ("int", "float", "bool", "as"):
             for ns in (False, True):
                 self.add({"type": "getter", "g": g, "present": False, "text": "", "ns": ns})
+        for k, c in enumerate(c for c in cases if c["k"] == "gseq"):
+            self.add({"type": "gseq", "present": True, "text": "".join(c["text"]), "calls": c["calls"], "ns": (k % 3 == 2)})
+        for calls in (["int", "float", "bool"], ["bool", "bool", "as"]):
+            for ns in (False, True):
+                self.add({"type": "gseq", "present": False, "text": "", "calls": calls, "ns": ns})
         for g, ts in (("int", ["5", "-3", "0"]), ("as", ["17"]), ("float", ["2.5", "-0.25", "10.0"]), ("bool", ["true", "false"])):
             for t in ts:
                 self.add({"type": "getter", "g": g, "present": True, "text": t, "pre": True, "ns": False})
@@ -857,6 +881,10 @@ def describe(spec, probe_ix):
     t = spec["type"]
     if t == "define":
         return "direct", "parse_user_define(%r)" % spec["text"]
+    if t == "gseq":
+        return ("gseq|getters=%s|present=%s" % ("+".join(sorted(set(spec["calls"]))), spec["present"]),
+                "%s getters %s one after the other on %r (same object)" % ("UserDataNamespace" if spec.get("ns") else "UserData",
+                                                                             ", ".join(spec["calls"]), spec["text"]))
     if t == "getter":
         return "g=%s|present=%s%s" % (spec["g"], spec["present"], "|pre" if spec.get("pre") else ""), "UserData getter %s on %r" % (spec["g"], spec["text"])
     whole, history = spec, None
@@ -893,6 +921,8 @@ def describe(spec, probe_ix):
 def observed_of(row):
     if row["kind"] == "define":
         return {"name": "".join(row["name"]), "value": "".join(row["value"]), "exc": row["exc"]}
+    if row["kind"] == "gseq":
+        return [{k: ("".join(o[k]) if k == "repr" else o[k]) for k in ("res", "ty", "neg", "mag", "repr")} for o in row["outs"]]
     if row["kind"] == "getter":
         return {k: ("".join(row[k]) if k == "repr" else row[k]) for k in ("res", "ty", "neg", "mag", "repr")}
     if row["kind"] == "layer":
@@ -978,7 +1008,8 @@ def run(chk):
                 "command line); option x forcing mode switch pairs; seeded "
                 "option subsets; all -D strings up to %d characters over {a,=,blank,\",'} plus every rendering of the documented forms; "
                 "all path shapes up to %d segments x 7 file directories x 2 cwd depths; format/outfiles counts 0..3; all getter texts up to "
-                "%d characters over {1,0,7,-,+,.,blank,x} plus boolean words; distinct = distinct experiments (real executions)"
+                "%d characters over {1,0,7,-,+,.,blank,x} plus boolean words, each also under every sequence of 2 (3 where some getter "
+                "converts the text) getters on one object; distinct = distinct experiments (real executions)"
                 % ((2, 5, 2, 3) if chk.quick() else (3, 7, 3, 4)))
     chk.assumptions = [
         "the built-in default of an option is the documented one (docs/behave.rst, help texts); BEHAVE_COLOR/BEHAVE_STAGE unset",
